@@ -153,24 +153,34 @@ func c11RunHistory(c *hcCase, dir string, journal string) (*rtModel, *vhConfig, 
 	}
 	e := &executor{h: h, m: newRtModel(), cfg: c.Config, scratch: map[string]any{}}
 	e.m.memCap = kubernetes.GetMemoryCapacity()
+	var inFlight *hcOp
 	writeJournal := func() {
 		if journal == "" {
 			return
 		}
 		b, _ := json.Marshal(struct {
-			Model *rtModelJSON `json:"model"`
-			Cfg   *vhConfig    `json:"cfg"`
-		}{e.m.toJSON(), e.cfg})
+			Model    *rtModelJSON `json:"model"`
+			Cfg      *vhConfig    `json:"cfg"`
+			InFlight *hcOp        `json:"in_flight,omitempty"`
+		}{e.m.toJSON(), e.cfg, inFlight})
 		tmp := journal + ".tmp"
 		_ = os.WriteFile(tmp, b, 0o644)
 		_ = os.Rename(tmp, journal)
 	}
 	writeJournal()
-	for _, op := range c.Ops {
+	for i := range c.Ops {
+		op := c.Ops[i]
+		if op.Kind == "update" {
+			// an update that is in flight when the plugin dies is not applied by the runtime,
+			// but the plugin may already have stored its requirements: remember it
+			inFlight = &op
+			writeJournal()
+		}
 		func() {
 			defer func() { _ = recover() }()
 			e.exec(op)
 		}()
+		inFlight = nil
 		writeJournal()
 	}
 	return e.m, e.cfg, nil
@@ -233,8 +243,9 @@ func c11Check(cc *c11Case, st *vfkit.Stats, mode *c11Mode) (v *vfkit.Violation, 
 			return nil, []string{"helper-produced-no-journal"}, false
 		}
 		j := struct {
-			Model *rtModelJSON `json:"model"`
-			Cfg   *vhConfig    `json:"cfg"`
+			Model    *rtModelJSON `json:"model"`
+			Cfg      *vhConfig    `json:"cfg"`
+			InFlight *hcOp        `json:"in_flight,omitempty"`
 		}{}
 		if json.Unmarshal(jb, &j) != nil || j.Model == nil {
 			return nil, []string{"helper-journal-unreadable"}, false
@@ -249,6 +260,25 @@ func c11Check(cc *c11Case, st *vfkit.Stats, mode *c11Mode) (v *vfkit.Violation, 
 			model.ctrs = map[string]*rtCtr{}
 		}
 		cfg = j.Cfg
+		if killed && j.InFlight != nil {
+			// the requirements of the update that was being processed may have reached the
+			// saved cache although the runtime never applied them (same mechanics as a refused update)
+			if c, ok := pick(model.live(), j.InFlight.A); ok {
+				fr := c.Spec.MilliCPU
+				switch {
+				case j.InFlight.Ctr != nil:
+					fr = j.InFlight.Ctr.MilliCPU
+				case j.InFlight.B == 2:
+					fr = c.CreateSpec.MilliCPU
+				case j.InFlight.B == 3 && c.PrevSpec != nil:
+					fr = c.PrevSpec.MilliCPU
+				}
+				if model.pods[c.Pod].Spec.QoS == "besteffort" {
+					fr = 0
+				}
+				c.FailedReqs = append(c.FailedReqs, fr)
+			}
+		}
 		if killed {
 			labels = append(labels, "killed-inside-a-request")
 			nt = true
